@@ -74,6 +74,15 @@ def run_case(case):
             n.send(H.RF24NetworkHeader(N.parent_of(key) if key else O("1"), PRE_TYPE), b"pre")
         elif op == "unicast-fail" and lvl < 4:
             n.send(H.RF24NetworkHeader(key | (4 << (3 * lvl)), PRE_TYPE), b"pre")
+        elif op == "unicast-routed-ack":
+            # an earlier acknowledged-type message over more than one hop (the sender waited for a NETWORK_ACK)
+            if lvl >= 2:
+                target = 0
+            elif lvl == 1:
+                target = O("2") if key != O("2") else O("1")
+            else:
+                target = O("11")
+            n.send(H.RF24NetworkHeader(target, 65), PRE_MSG)
         elif op == "multicast-same-type":
             # an earlier multicast of the same type that the receivers have not dequeued yet
             if case["level"] is None:
@@ -381,7 +390,8 @@ def build_items(tier, seed):
             pres = [[(recv, "unicast-ok")], [(recv, "unicast-fail")], [(recv, "rebegin")], [(src, "rebegin")], [(src, "unicast-ok")], [(src, "unicast-fail")],
                     [(recv, "unicast-fail"), (recv, "unicast-ok")], [(src, "unicast-ok"), (recv, "rebegin"), (recv, "unicast-ok")],
                     [(src, "multicast-same-type")], [(src, "unicast-same-type:%d" % recv)], [(src, "multicast-same-type"), (src, "multicast-same-type")],
-                    [(src, "multicast-burst")], [(recv, "fill-queue:6")], [(recv, "fill-queue:6"), (src, "multicast-burst")]]
+                    [(src, "multicast-burst")], [(recv, "fill-queue:6")], [(recv, "fill-queue:6"), (src, "multicast-burst")],
+                    [(recv, "unicast-routed-ack")], [(src, "unicast-routed-ack")], [(recv, "unicast-routed-ack"), (src, "unicast-ok")]]
             for pre in pres:
                 for relays in ([], [recv] if relay_ok else None):
                     if relays is None:
